@@ -16,6 +16,9 @@ def _dispatch(prop: str, tier: str):
     if prop == "C10":
         from . import budget
         return budget.check(tier)
+    from . import retrycheck
+    if prop in retrycheck.PROFILES:
+        return retrycheck.check(prop, tier)
     raise SystemExit(f"unknown property {prop}")
 
 
